@@ -30,7 +30,7 @@ ExoticLeaves ==
       FloatH(0), NZeroV, FloatH(3), FloatH(-5), FSpec("inf"), FSpec("ninf"), FSpec("nan"),
       FBigV(<<"1","e","+","1","6">>), FBigV(<<"0",".","1">>),
       S(<<"t","r","u","e">>), S(<<"T","r","u","e">>), S(<<"n","u","l","l">>), S(<<"1",".","0">>),
-      S(<<" ","a"," ">>), S(<<"a","\n","b">>), S(<<"<","&">>), S(<<"\t">>), S(<<" ">>),
+      S(<<" ","a"," ">>), S(<<"a","\n","b">>), S(<<"\n"," ","\n","\n","a","\n">>), S(<<"<","&">>), S(<<"\t">>), S(<<" ">>),
       S(<<"a","\r">>) }                                                                \* outside XML
 
 \* increasing subsequences of ks with m elements
@@ -77,10 +77,20 @@ MCFixedTrees ==
     { DictV(<< <<S(<<"1">>), IntV(1)>> >>),                       \* key is not an XML name
       DictV(<< <<S(<<"a"," ","b">>), BoolV(TRUE)>> >>),
       DictV(<< <<S(<<>>), S(<<>>)>> >>),                          \* empty key
-      DictV(<< <<S(<<"a",":","b">>), NoneV>> >>),                 \* a Name but not an NCName
       DictV(<< <<S(<<"a",".","b","-","c","_">>), ListV(<<DictV(<<>>), ListV(<<NoneV>>)>>)>> >>),
       DictV(<< <<S(<<"_">>), DictV(<< <<S(<<"=">>), IntV(1)>> >>)>> >>),
       DictV(<< <<S(<<"x","m","l">>), FloatH(-1)>>, <<S(<<"A">>), S(<<"a">>)>>, <<S(<<"a">>), S(<<"A">>)>> >>) }
+
+\* keys that are XML Names with a colon (known finding C04-xml-colon-key): every leaf under
+\* each of them, and a few nested / mixed placements
+ColonKeys == { <<"a",":","b">>, <<":","a">>, <<"a",":">>, <<"x",":","y",":","z">>, <<"x","m","l",":","a">>,
+               <<"x","m","l","n","s",":","a">> }
+MCColonTrees ==
+    {DictV(<< <<S(k), v>> >>) : k \in ColonKeys,
+                               v \in CoreLeaves \cup ExoticLeaves \cup {ListV(<<>>), DictV(<<>>)}}
+    \cup {DictV(<< <<S(KA), DictV(<< <<S(k), IntV(1)>> >>)>> >>) : k \in ColonKeys}
+    \cup {DictV(<< <<S(K1), BoolV(TRUE)>>, <<S(k), ListV(<<DictV(<< <<S(k), S(<<>>)>> >>)>>)>>, <<S(KItem), NoneV>> >>) :
+             k \in ColonKeys}
 
 \* All trees of weight <= Budget below the root, as initial states.  The trees are enumerated
 \* by nested quantifiers (entry by entry, keys in the order of RootKeys) instead of being
@@ -92,7 +102,7 @@ TreeFrom(T, kv, nk, rem) ==
           TreeFrom(T, Append(kv, <<RootKeys[i], v>>), i + 1, rem - w)
 MCInit ==
     \/ LET T == TLCEval(TabAt(0)) IN TreeFrom(T, <<>>, 1, Budget)
-    \/ \E t \in MCFixedTrees : lab = Session(t)
+    \/ \E t \in MCFixedTrees \cup MCColonTrees : lab = Session(t)
     \/ \E e \in Elems : lab = ElemSession(e)
 
 \* the plan: every format, every option value, and two loads with the wrong root tag
@@ -136,6 +146,8 @@ ASSUME FloatOfText(<<"-","0",".","0">>).v = NZeroV /\ FloatOfText(<<"2",".","5",
 ASSUME IntOfText(<<"2","1","4","7","4","8","3","6","4","7">>).v = IntV(2147483647)
 ASSUME IntOfText(<<"-","2","1","4","7","4","8","3","6","4","8">>).v.t = "big"
 ASSUME In64(<<"-">> \o Mag63n) /\ In64(Mag63) /\ ~In64(Mag63n)
+ASSUME IsXmlName(<<"a",":","b">>) /\ IsXmlName(<<":","a">>) /\ ~IsXmlName(<<"1",":">>) /\ ~IsXmlName(<<"a"," ","b">>)
+ASSUME \A t \in MCColonTrees : HasColonKey(t) /\ (InDomain("xml", t) \/ ~XmlOk(DictV(<< <<S(KA), t>> >>)))
 ASSUME ~IsNCName(<<"a",":","b">>) /\ ~IsNCName(<<"1">>) /\ ~IsNCName(<<>>) /\ IsNCName(<<"_","a",".","1","-">>)
 
 (* export: the plan once, one line per session start, one JSON line per complete session *)
@@ -147,7 +159,7 @@ PCase ==
     /\ (TLCGet("level") = 1 /\ lab.mode = "tree" /\ lab.t.kv = <<>>) => PrintT(<<"PLAN", ToJson(Plan)>>)
     /\ IsStart => PrintT(<<"INIT", ToJson([n |-> Len(lab.t.kv)])>>)
     /\ Final => IF lab.mode = "tree"
-                THEN PrintT(<<"CASE", ToJson([mode |-> "tree", t |-> lab.t,
+                THEN PrintT(<<"CASE", ToJson([mode |-> "tree", t |-> lab.t, colon |-> HasColonKey(lab.t),
                                               runs |-> [i \in DOMAIN lab.runs |-> Slim(lab.runs[i])]])>>)
                 ELSE PrintT(<<"CASE", ToJson([mode |-> "elem", e |-> lab.e, out |-> lab.out])>>)
 =============================================================================
